@@ -239,8 +239,14 @@ def b58_mutate(rng, text):
 
 def wif_block(c, n):
     prefixes = sorted({NETWORKS[k]["wif"] for k in NETKEYS})
-    for k in range(n):
-        secret = ks.gen_secret(c.rng)
+    # the optional compression flag follows the secret: secrets whose last (and first) byte takes the flag's own
+    # values 0x01 / 0x00 are always present, so that a decoder reading the flag from the wrong position is seen
+    edge = [(1).to_bytes(32, "big"), (0x0100).to_bytes(32, "big"),
+            ks.rbytes(c.rng, 31) + b"\x01", b"\x01" + ks.rbytes(c.rng, 30) + b"\x01",
+            ks.rbytes(c.rng, 31) + b"\x00", b"\x80" + ks.rbytes(c.rng, 30) + b"\x01"]
+    edge = [e for e in edge if 0 < int.from_bytes(e, "big") < ks.N]
+    for k in range(n + len(edge)):
+        secret = edge[k] if k < len(edge) else ks.gen_secret(c.rng)
         for compressed in (True, False):
             for ni, nk in enumerate(NETKEYS):
                 net = NETWORKS[nk]
